@@ -186,6 +186,8 @@ class Case:
         for recv, name, eargs, res in ext_lines:
             lines.append("EXT %s %s %d %s %s" % (ser.tok_frozen(recv), name, len(eargs),
                                                " ".join(ser.tok_frozen(a) for a in eargs), ser.tok_frozen(res)))
+        for q in getattr(self, "exclude", ()):
+            lines.append("EXCLUDE %s" % q)      # a translated function answered by EXT lines in this case
         for obj, name in self.patch:
             c = cls_of(obj)
             lines.append("EXCLUDE %s.%s" % (c.__name__ if c else type(obj).__name__, name))
